@@ -784,7 +784,8 @@ class Rewriter:
         full = c.get("full") or ""
         dest = t["dest"]["l"]
         dty = self.locals[dest]["ty"]
-        if name == "collect" and not dty.startswith("std::vec::Vec<"):
+        opt_vec = name == "collect" and dty.startswith("std::option::Option<std::vec::Vec<")
+        if name == "collect" and not dty.startswith("std::vec::Vec<") and not opt_vec:
             return False
         line = b["line"]
         after = t["to"]
@@ -880,6 +881,40 @@ class Rewriter:
             self.blocks[cur_b]["term"] = {"k": "goto", "to": cont}
             self.blocks[exit_b]["stmts"].append(_assign(_pl(dest), {"use": _cp(acc)}, line))
             self.blocks[exit_b]["term"] = {"k": "goto", "to": after}
+        elif name == "collect" and opt_vec:
+            # `.collect::<Option<Vec<T>>>()` (std: stops at the first None): v = Vec::new(); loop { match x { None => { dest = None;
+            # leave }, Some(y) => v.push(y) } }; dest = Some(v)
+            vty = dty[len("std::option::Option<"):-1]
+            ety = vty[len("std::vec::Vec<"):-1]
+            oty = "std::option::Option<" + ety + ">"
+            if xty == "?":
+                self.locals[x]["ty"] = xty = oty
+            V = self.new_local(vty, "collected")
+            nb0 = self.new_block(line)
+            self.blocks[nb0]["term"] = {"k": "call", "callee": {"path": "std::vec::Vec::<T>::new", "full": "std::vec::Vec::<T>::new", "name": "new", "trait": None,
+                                                                "local": False, "resolved": "std::vec::Vec::<T>::new", "resolved_local": False, "resolved_kind": "Item",
+                                                                "generic_args": [], "bound_impls": [], "syn": True},
+                                        "args": [], "dest": _pl(V), "to": header, "syn": True}
+            dl2 = self.new_local("isize")
+            y = self.new_local(ety)
+            vr = self.new_local("&mut " + vty)
+            unit = self.new_local("()")
+            none_b = self.new_block(line, [_assign(_pl(dest), {"agg": {"adt": "std::option::Option", "variant": "None", "vidx": 0, "local": False}, "ops": []}, line)],
+                                    {"k": "goto", "to": after})
+            some_b = self.new_block(line, [_assign(_pl(y), {"use": _mv(x, _variant("Some", 1, ety, oty))}, line),
+                                           _assign(_pl(vr), {"ref": _pl(V), "mut": True}, line)],
+                                    {"k": "call", "callee": {"path": "std::vec::Vec::<T, A>::push", "full": "std::vec::Vec::<T, A>::push", "name": "push",
+                                                             "trait": None, "local": False, "resolved": "std::vec::Vec::<T, A>::push", "resolved_local": False,
+                                                             "resolved_kind": "Item", "generic_args": [], "bound_impls": [], "syn": True},
+                                     "args": [_mv(vr), _mv(y)], "dest": _pl(unit), "to": cont, "syn": True})
+            unr2 = self.new_block(line, [], {"k": "unreachable"})
+            self.blocks[cur_b]["stmts"].append(_assign(_pl(dl2), {"discr": _pl(x)}, line))
+            self.blocks[cur_b]["term"] = {"k": "switch", "on": _mv(dl2), "ty": "isize", "arms": [[0, none_b], [1, some_b]], "otherwise": unr2, "syn": True}
+            self.blocks[exit_b]["stmts"].append(_assign(_pl(dest), {"agg": {"adt": "std::option::Option", "variant": "Some", "vidx": 1, "local": False}, "ops": [_mv(V)]}, line))
+            self.blocks[exit_b]["term"] = {"k": "goto", "to": after}
+            b["term"] = {"k": "goto", "to": nb0, "syn": "pipeline"}
+            self.changed = True
+            return True
         elif name == "collect":
             # dest = Vec::new(); loop { dest.push(x) }
             nb0 = self.new_block(line)
